@@ -109,6 +109,9 @@ def nudged(st, seed, dt):
     return new
 
 
+_FORKS = []
+
+
 def _mutate(kind, obj, op):
     name = op[0]
     if name == "tr":
@@ -181,6 +184,18 @@ def _mutate(kind, obj, op):
                 setattr(obj, a, np.array(getattr(src, a)))
     elif name == "add_lanelet":
         net = obj.lanelet_network if kind == "scenario" else obj
+        if len(op) > 2 and op[2] == "fork":
+            # a deep copy of the object is taken first and goes its own way (another lanelet is added to the copy, or
+            # its first lanelet is removed): nothing of that may reach the original (seed C11-15)
+            other = copy.deepcopy(obj)
+            onet = other.lanelet_network if kind == "scenario" else other
+            if op[1] % 2 == 0 or not onet.lanelets:
+                (other.add_objects if kind == "scenario" else other.add_lanelet)(new_lanelet(onet, op[1] + 7))
+            else:
+                other.remove_lanelet(onet.lanelets[0]) if kind == "scenario" else \
+                    other.remove_lanelet(onet.lanelets[0].lanelet_id)
+            _FORKS.append(other)
+            del _FORKS[:-4]
         la = new_lanelet(net, op[1])
         if kind == "scenario":
             obj.add_objects(la)
@@ -506,7 +521,8 @@ def g_mutator(rng, kind, obj):
                            ["set_active", rng.random() < 0.5]])
     if kind == "light":
         return rng.choice([["set_elems", s, 0], ["set_offset", rng.randint(0, 9), 0], ["set_cycle", s, 0], g_tr(rng)])
-    ms = [g_tr(rng), g_tr(rng), g_tr(rng), ["add_lanelet", s], ["remove_lanelet", rng.randint(0, 20), rng.random() < 0.3],
+    ms = [g_tr(rng), g_tr(rng), g_tr(rng), ["add_lanelet", s], ["add_lanelet", s, "fork"],
+          ["remove_lanelet", rng.randint(0, 20), rng.random() < 0.3],
           ["set_offset", rng.randint(0, 9), rng.randint(0, 5)], ["set_elems", s, rng.randint(0, 5)]]
     if kind == "net":
         ms += [["add_from_net", s, rng.randint(1, 3), rng.random() < 0.4],
